@@ -106,6 +106,7 @@ class Unit(Translator):
             if ot.kind == 'ptr': ot = ot.to
         cat = self.category(ot)
         name = mexpr['name']
+        args = [a for a in args if a.get('kind') != 'CXXDefaultArgExpr']
         return self.lib.method(P, n, cat, ot, name, obj, is_arrow, args)
 
     def adjust_this(self, P, obj, is_arrow, callee, this):
@@ -133,6 +134,11 @@ class Unit(Translator):
 
     def call_operator(self, P, n, r, args):
         callee = self.resolve_fn(r['id'])
+        if callee is not None and callee.get('isImplicit') and r.get('name') == 'operator=' and self.category(P.ty(args[0])) == 'record':
+            q = P.ty(args[0]).strip_ref().name
+            if not self.record_trivially_copyable(q):
+                self.dropped.add('implicit copy assignment of %s is a shallow struct copy in the C model' % q)
+            return '(%s = %s)' % (P.ex(args[0]), P.ex(args[1]))
         if callee is not None and self.is_translatable(callee):
             cn = self._callee_cname(P, callee)
             if self.fn_is_method(callee):
@@ -154,17 +160,22 @@ class Unit(Translator):
                 return P.ex(args[0])
             if ctor == 'zero':
                 return '((%s){0})' % self.ctype_t(t)
+            if ctor == 'defaults':
+                tmp = P.new_temp(lambda nm: self.decl_text_t(t, nm))
+                return '(%s = (%s){0}, %s, %s)' % (tmp, self.ctype_t(t), self.field_default_inits(P, t.strip_ref().name, '&' + tmp) or '0', tmp)
             cn = self._callee_cname(P, ctor)
             tmp = P.new_temp(lambda nm: self.decl_text_t(t, nm))
             a = ['&' + tmp] + P.call_args(ctor, args)
             return '(%s(%s), %s)' % (cn, ', '.join(a), tmp)
         if len(args) == 1 and n.get('elidable'):
             return P.ex(args[0])
+        args = [a for a in args if a.get('kind') != 'CXXDefaultArgExpr']
         return self.lib.construct(P, n, t, cat, args)
 
     def find_ctor(self, P, n, t, args):
         """select the constructor: clang does not give the decl id in JSON for CXXConstructExpr, so match by the
         printed constructor type (ctorType) against the loaded constructors of the class."""
+        self.category(t)     # canonicalises alias names in t
         q = t.strip_ref().name
         ctype_str = n.get('ctorType', {}).get('qualType')
         if len(args) == 1:
@@ -173,13 +184,21 @@ class Unit(Translator):
                 if not self.record_trivially_copyable(q):
                     self.dropped.add('copy of %s is a shallow struct copy in the C model (members that own storage are shared)' % q)
                 return 'copy'
-        cands = [c for c in self.fn_nodes if c['kind'] == 'CXXConstructorDecl' and self.fn_class_qname(c) == q]
+        cands = [c for c in self.fn_nodes if c['kind'] == 'CXXConstructorDecl' and self.fn_class_qname(c) in (q, self._alias_names(q))]
+        if not args and (not cands or all(c.get('isImplicit') or c.get('explicitlyDefaulted') for c in cands if not self.fn_params(c))):
+            if not [c for c in cands if not self.fn_params(c) and not (c.get('isImplicit') or c.get('explicitlyDefaulted'))]:
+                return 'zero' if not self.record_has_default_inits(q) else 'defaults'
         for c in cands:
             if c['type']['qualType'] == ctype_str:
                 return c
         if not args:
             return 'zero' if not self.record_has_default_inits(q) else self.synth_default_ctor(q)
         raise Unsupported('%s: constructor %s of %s not loaded' % (P.cname, ctype_str, q))
+
+    def _alias_names(self, q):
+        for a, t in self.aliases.items():
+            if t == q: return a
+        return None
 
     def record_trivially_copyable(self, q):
         for (name, ty, node) in self.record_fields(q):
@@ -237,7 +256,15 @@ class Unit(Translator):
         if ctor == 'copy':
             out.append(P.ind() + '%s = %s;' % (decl, P.ex(args[0]))); return True
         if ctor == 'zero':
-            out.append(P.ind() + '%s = {0};' % decl); return True
+            # trivial default construction: scalar members are indeterminate in C++, i.e. nondeterministic here
+            if args or self.opts.get('zero_trivial_ctor'): out.append(P.ind() + '%s = {0};' % decl)
+            else: out.append(P.ind() + decl + ';')
+            return True
+        if ctor == 'defaults':
+            out.append(P.ind() + '%s = {0};' % decl)
+            fi = self.field_default_inits(P, t.strip_ref().name, '&' + name)
+            if fi: out.append(P.ind() + fi + ';')
+            return True
         cn = self._callee_cname(P, ctor)
         a = ['&' + name] + P.call_args(ctor, args)
         out.append(P.ind() + decl + ';')
